@@ -27,6 +27,7 @@ OWNER = {
     "file.wal_seq": "C01", "file.chain_seq": "C01", "file.present": "C01", "handle": "C01", "ticket": "C25",
     "capacity": "C25", "stats.count": "C01", "dir": "C19", "result": None, "timeline": "C15", "by_uri": "C08",
     "put.seq": "C01", "put.nfid": "C06", "verify": "C01", "payload_end": "C24", "doctor.verify": "C21", "vecset": "C14", "ro.file": "C18", "card.query": "C27", "card.temporal": "C27", "card.set": "C27", "card.id": "C27",
+    "capacity.accepted": "C24", "capacity.rejected": "C24",
     "card.source": "C26", "card.value": "C26", "card.queue": "C26",
 }
 
@@ -649,7 +650,47 @@ def fam_cards(rng, quick):
     return out
 
 
-EXTRA_FAMILIES += [fam_many_small, fam_tickets, fam_known, fam_maintenance, fam_cards]
+def fam_capacity_edges(rng, quick):
+    """C24: chunkable text near the limit; dead bytes of deleted / superseded tail frames across a reopen."""
+    out = []
+    base = 4096 + 65536
+    for size in ([2600] if quick else [2600, 6000]):
+        ops = [{"op": "create"}, {"op": "put", "uri": "mv2://s", "pay": 1, "cls": "bin", "size": 32, "ts": 1}, {"op": "commit"},
+               {"op": "ticket", "seq": 3, "cap": base + 32 + 100},
+               {"op": "put", "uri": "mv2://long", "pay": 2, "cls": "long", "size": size, "ts": 2}, {"op": "commit"}, {"op": "close"}, {"op": "open"}, {"op": "close"}]
+        out.append(ops)
+    for kill in (["delete"] if quick else ["delete", "update"]):
+        ops = [{"op": "create"}, {"op": "put", "uri": "mv2://a", "pay": 1, "cls": "bin", "size": 64, "ts": 1}, {"op": "commit"},
+               {"op": "put", "uri": "mv2://b", "pay": 2, "cls": "bin", "size": 2000, "ts": 2}, {"op": "commit"},
+               {"op": "ticket", "seq": 3, "cap": base + 64 + 2000 + 5000}]
+        ops.append({"op": "delete", "frame": 1} if kill == "delete" else {"op": "update", "frame": 1, "pay": 3, "cls": "bin", "size": 10})
+        ops += [{"op": "commit"}, {"op": "close"}, {"op": "open"}]
+        # after reopen: sizes around what is left (the dead tail bytes still count until vacuum)
+        for k, sz in enumerate([4800, 5200, 6500, 400]):
+            ops.append({"op": "put", "uri": "mv2://n%d" % k, "pay": 10 + k, "cls": "bin", "size": sz, "ts": 5 + k})
+        ops += [{"op": "commit"}, {"op": "close"}, {"op": "open"}, {"op": "close"}]
+        out.append(ops)
+    return out
+
+
+def fam_payload_sizes(rng, quick):
+    """C07: every small size of maximally compressible, NUL and prose UTF-8 payloads (sizes at which the compressed
+    length meets the raw length), binary payloads, then reads through several blob readers at once."""
+    out = []
+    for cls in ("rep", "zeros", "prose"):
+        ops = [{"op": "create"}]
+        sizes = list(range(1, 40)) + ([60, 79, 80, 81, 100] if quick else list(range(40, 130)))
+        for i, sz in enumerate(sizes):
+            ops.append({"op": "put", "uri": "mv2://%s%d" % (cls, sz), "pay": i + 1, "cls": cls, "size": sz, "ts": i})
+            if i % 25 == 24:
+                ops.append({"op": "commit"})
+        ops += [{"op": "put", "uri": "mv2://bin1", "pay": 900, "cls": "bin", "size": 700, "ts": 1}, {"op": "put", "uri": "mv2://bin2", "pay": 901, "cls": "bin", "size": 1300, "ts": 2},
+                {"op": "commit"}, {"op": "close"}, {"op": "open", "full": True}, {"op": "close"}, {"op": "open_ro"}, {"op": "close"}]
+        out.append(ops)
+    return out
+
+
+EXTRA_FAMILIES += [fam_capacity_edges, fam_payload_sizes, fam_many_small, fam_tickets, fam_known, fam_maintenance, fam_cards]
 
 DEV_OWNER = {"D26_value_rewritten": "C26", "D01_commit_growth": "C01", "D08_update_chunked_empty": "C08", "D24_pending_ignored": "C24",
              "D24_payload_end_beyond_capacity": "C24"}
